@@ -58,7 +58,7 @@ def Pc.sh : Pc → Nat | .r | .u | .dw => 1 | _ => 0
 structure Sys where
   state : Nat := 0
   ags : List Pc := []
-  deriving Repr
+  deriving DecidableEq, Repr
 
 def readers (l : List Pc) : Nat := (l.map Pc.rd).sum
 def bits (l : List Pc) : Nat := (l.map Pc.bt).sum
